@@ -140,6 +140,8 @@ type zzHist struct {
 	instances bool   // label and sources depend on the call variable T
 	inst      string // value of T in this step
 	killAt    string // probe during which the process of this step is killed ("" = not killed)
+	hasStatus   bool // the task also has a status: command
+	statusFails bool // ... which fails in this step
 	exit      map[string]uint8
 	ran       []string // probes started in the current step
 }
@@ -174,6 +176,9 @@ func (h *zzHist) taskfile() *ast.Taskfile {
 	if h.hasPrompt {
 		t.Prompt = []string{"sure?"}
 	}
+	if h.hasStatus {
+		t.Status = []string{h.statusText()}
+	}
 	n := 1
 	if h.twoCmds {
 		n = 2
@@ -202,6 +207,13 @@ func (h *zzHist) taskfile() *ast.Taskfile {
 		tf.Tasks.Set("indir", indir)
 	}
 	return tf
+}
+
+func (h *zzHist) statusText() string {
+	if zz.Native() {
+		return "test ! -f statusfail"
+	}
+	return "stat S"
 }
 
 func (h *zzHist) preText() string {
@@ -250,6 +262,12 @@ func (h *zzHist) cmdText(k int, last bool) string {
 // zzHistShell: the shell of the model.
 func (h *zzHist) shell(ctx context.Context, opts *execext.RunCommandOptions) error {
 	f := strings.Fields(opts.Command)
+	if strings.HasPrefix(opts.Command, "stat ") { // the status command of the task
+		if h.statusFails {
+			return interp.NewExitStatus(1)
+		}
+		return nil
+	}
 	if strings.HasPrefix(opts.Command, "pre ") { // the precondition of the nested task
 		if h.preFails {
 			return interp.NewExitStatus(1)
@@ -442,6 +460,7 @@ func ZZ_H_History() {
 	h.methodOnTask = prop != 12 && !focusKill && zz.Bool("method_set_on_task")
 	h.reinclude = (prop == 5 || prop == 4) && !focusKill && zz.Bool("sources_reinclude_excluded_file")
 	h.nestedGuard = prop == 12 && zz.Bool("nested_call_with_failing_guard")
+	h.hasStatus = zz.Param("status_history", 0) == 1 // focused history: the task also has a status: command
 	zzPreFail = true
 	h.p.put("a.src", "v0")
 	h.p.put("skip.src", "s0")
@@ -524,10 +543,21 @@ func ZZ_H_History() {
 		} else if mode == zzModeSibling {
 			zz.Assume(false) // covered by the focused history (registered separately)
 		}
+		if h.hasStatus {
+			zz.Assume(mode != zzModeForce) // forced runs are the subject of the plain histories
+		}
 		if mode == zzModeRun || mode == zzModeForce {
 			failCmd = zz.Choose(fmt.Sprintf("fail%d", k), nfail) - 1
 		}
 		h.preFails = h.nestedGuard && zz.Bool(fmt.Sprintf("nested_guard_fails%d", k))
+		h.statusFails = h.hasStatus && zz.Bool(fmt.Sprintf("status_fails%d", k))
+		if zz.Native() && h.hasStatus {
+			if h.statusFails {
+				os.WriteFile(h.p.path("statusfail"), nil, 0o644)
+			} else {
+				os.Remove(h.p.path("statusfail"))
+			}
+		}
 		if zz.Native() && h.nestedGuard {
 			// natively the precondition is `test ! -f guardfail`
 			if h.preFails {
@@ -570,8 +600,13 @@ func ZZ_H_History() {
 					if !h.hasPrompt || yes {
 						zz.Assert(r.started, "force-runs-the-commands/"+h.method)
 					}
-				} else if allowedSkip {
+				} else if allowedSkip && !h.statusFails {
 					zz.Assert(skipped, "unchanged-task-is-skipped/"+h.method+"/after-"+last+since)
+				} else if allowedSkip {
+					// sources unchanged but the status command fails: not up to date
+					if !h.hasPrompt || yes {
+						zz.Assert(r.started, "failing-status-runs-the-commands/"+h.method)
+					}
 				} else if !h.hasPrompt || yes {
 					zz.Assert(r.started, "changed-task-runs-again/"+h.method+"/after-"+last+since)
 				}
